@@ -115,7 +115,7 @@ def gen_prog(rnd):
     return prog, ref
 
 
-SELECTORS = ["o-bin", "o-raw", "o-noext", "o-subdir", "make_bin", "make_raw", "make_wav", "implicit", "o+make", "make_bin-path", "o-dat", "make_raw-bin", "make_bin-img", "make2", "make2b", "make3", "implicit+make"]
+SELECTORS = ["o-bin", "o-raw", "o-noext", "o-subdir", "make_bin", "make_raw", "make_wav", "implicit", "o+make", "make_bin-path", "o-dat", "make_raw-bin", "make_bin-img", "make2", "make2b", "make3", "implicit+make", "o-lst", "make_raw-lst"]
 
 
 def parse_listing(text):
@@ -204,6 +204,11 @@ def run_case(case, cnt=None, root=None):
             argv_sel = ["-o", "prog.dat"]; candidates = [["prog.dat.lst"]]
         elif sel == "o-subdir":
             argv_sel = ["-o", "out/image.bin"]; candidates = [["out/image.lst"]]
+        elif sel == "o-lst":
+            # an output that is itself called *.lst: '.lst' is not its format suffix, the listing is another file
+            argv_sel = ["-o", "symbols.lst"]; candidates = [["symbols.lst.lst"]]
+        elif sel == "make_raw-lst":
+            main.stmts.append(apm.simple("make_raw", '"dump.lst"')); candidates = [["dump.lst.lst"]]
         elif sel == "make_bin":
             main.stmts.append(apm.simple("make_bin")); candidates = [[stem + ".lst"]]
         elif sel == "make_bin-path":
@@ -253,6 +258,21 @@ def run_case(case, cnt=None, root=None):
             viol(f"{label}: valid program failed with --lst: exit {r['exit']} events {r['events'][:3]} stderr {r['stderr'][-200:]!r}")
             return (out, False, None) if not own else out
         created = [c for c in r["diff"]["created"] if c.endswith(".lst")]
+        if sel in ("o-lst", "make_raw-lst"):
+            # the requested output: it must hold the image (raw: the bytes; bin: base, length, bytes), not a listing
+            outp = "symbols.lst" if sel == "o-lst" else "dump.lst"
+            created = [c for c in created if c != outp]
+            try:
+                with open(os.path.join(work, outp), "rb") as fh:
+                    blob = fh.read()
+            except OSError:
+                blob = None
+            img = bytes(ref.image)          # (instruction bytes are 0xAA placeholders in the reference image: compared by position elsewhere)
+            body = None if blob is None else blob[len(blob) - len(img):] if len(blob) - len(img) in (0, 4) else None
+            if body is None or any(a != b for a, b in zip(body, img) if b != 0xAA):
+                viol(f"{label}: the output {outp} does not hold the image (file {None if blob is None else (len(blob), blob[:24].hex())}, reference {len(ref.image)} {bytes(ref.image)[:24].hex()})")
+                return (out, False, None) if not own else out
+            cnt["outputs_named_lst_checked"] = cnt.get("outputs_named_lst_checked", 0) + 1
         flat = [p for group in candidates for p in group]
         if len(created) != 1:
             viol(f"{label}: {len(created)} listing files written ({created}); exactly one expected among {flat}")
